@@ -131,7 +131,7 @@ Proof. from_eval (proj2 same_name_eval). Qed.
    while TypeScript defines it as MY_CONST *)
 Definition w_k : ws_entry := w_entry (lit "k") (w_file
   [w_struct [] (lit "K1") [w_fld (lit "x") (w_ty (lit "u8"))];
-   IConst [w_ts] (lit "MyConst") (w_ty (lit "u32")) {| ce_first_lit := Some (CInt (Some (Zpos xH))); ce_plain := Some (Zpos xH) |}]
+   IConst [w_ts] (lit "MyConst") (w_ty (lit "u32")) (CELit (CInt (Some (Zpos xH))))]
   [[lit "typeshare"]; [lit "u8"]; [lit "u32"]]).
 Definition ws_glob_const : list ws_entry := [w_k; w_b [w_glob (lit "k"); w_use (lit "k") (lit "K1")] (lit "K1")].
 
